@@ -356,8 +356,18 @@ def run(ctx):
     from vlib import c13_ext
     ext = {"module_deployments": 0, "module_calls": 0, "module_slots": 0, "msize_ctor_deployments": 0,
            "legacy_guard_checked": 0, "venom_copy_kind": {}}
+    def compile_skip(pr, cfg, what):
+        """compile crashes under configurations carrying disable_* flags / inline thresholds are C20's business:
+        recorded, not reported here; a flag-free configuration that does not compile is reported."""
+        if pr and all(x.startswith("compile failed") for x in pr) and (cfg.flags or cfg.inline_threshold is not None):
+            ext.setdefault("compile_skips", {})[f"{what}:{cfg.name}"] = pr[0][:120]
+            return True
+        return False
+
     for cfg in cfgs:
         pr, st = c13_ext.modules_case(ctx, cfg, rnd, exact_code, selector)
+        if compile_skip(pr, cfg, "modules"):
+            pr = []
         ext["module_deployments"] += st["deploy"]
         ext["module_calls"] += st["calls"]
         ext["module_slots"] += st["slots"]
@@ -375,6 +385,8 @@ def run(ctx):
                    {"source": src, "config": cfg.name, "ctor_arg_a": a, "problems": [(x[0], x[2], x[3]) for x in pr[:8]]},
                    key="venom-ctor-early-return-deploys-empty" if cfg.venom else f"c13:early-return:{cfg.name}:{name}")
         pr, st = c13_ext.msize_case(ctx, cfg, rnd, exact_code, selector, compile_src)
+        if compile_skip(pr, cfg, "msize"):
+            pr = []
         ext["msize_ctor_deployments"] += 1
         ext["legacy_guard_checked"] += st["guard_checked"]
         if st["copy_kind"]:
